@@ -505,21 +505,13 @@ Proof.
   destruct (H1 v) as [j [-> ->]]. destruct (H2 r) as [j' [-> ->]]. reflexivity.
 Qed.
 
-Lemma combine_fst_le : forall {A} (v prev : list A), length v <= length prev -> map fst (combine v prev) = v.
+Lemma combine_fst_le : forall {A B} (v : list A) (p : list B), length v <= length p -> map fst (combine v p) = v.
 Proof.
-  induction v as [|x v IH]; destruct prev as [|y prev]; simpl; intro L; auto; try lia.
+  induction v as [|x v IH]; destruct p as [|y p]; simpl; intro L; auto; try lia.
   f_equal. apply IH. lia.
 Qed.
-Lemma array_validate_exact : forall {A} (prev v : list A),
-  prev = [] \/ length v <= length prev -> array_validate prev v = v.
+Lemma array_validate_exact : forall {A} (prev v : list A), array_validate prev v = v.
 Proof.
-  intros A prev v [->|L]; [reflexivity|].
-  unfold array_validate. destruct prev as [|y prev]; auto. apply combine_fst_le. exact L.
-Qed.
-Lemma array_validate_truncates : forall {A} (prev v : list A),
-  prev <> [] -> array_validate prev v = firstn (length prev) v.
-Proof.
-  intros A prev v N. unfold array_validate. destruct prev as [|y prev]; [contradiction|].
-  clear N. generalize (y :: prev). clear. intro p. revert p.
-  induction v as [|x v IH]; destruct p as [|z p]; simpl; auto. f_equal. apply IH.
+  intros A prev v. unfold array_validate. destruct prev as [|y prev]; auto.
+  apply combine_fst_le. rewrite app_length, map_length, repeat_length. lia.
 Qed.
